@@ -78,14 +78,16 @@ _TABLE_CACHE = {}
 
 def get_funcdef(fn):
     code = fn.__code__
-    r = _fn_cache.get(code)
+    hit = _fn_cache.get(id(code))      # by identity: distinct functions may have equal code objects
+    r = hit[1] if hit is not None and hit[0] is code else None
     if r is None:
         src = textwrap.dedent(inspect.getsource(fn))
         tree = ast.parse(src)
         node = tree.body[0]
         if not isinstance(node, (ast.FunctionDef, ast.AsyncFunctionDef)):
             raise EngineError(f'cannot get def of {fn}')
-        r = _fn_cache[code] = (node, src)
+        r = (node, src)
+        _fn_cache[id(code)] = (code, r)
     return r
 
 
